@@ -11,14 +11,16 @@
        H_show_no_space  repr(w) contains no whitespace character: none of Python's 29 str.isspace code points,
                         which include U+0020 and all ten str.splitlines boundaries (linebreak_is_space).
 
-   wf_wmd W i  (Proofs/WmdIO.v)  :=  data_type "wmd"
+   wf_core W i  (Proofs/WmdIO.v)  :=  data_type "wmd"
      /\ the nine header fields and all alternative names are single-line and without outer whitespace (they may
         be empty), the keys of alternatives_name are distinct                       [wf_fields, wf_names]
      /\ node_mapping is a dict (distinct keys) of duplicate-free sets whose elements are nodes   [wf_nmap]
      /\ the keys of the weight table are distinct and are exactly the stored edges  [wf_weights]
      /\ num_edges = number of stored edges  /\  there is at least one edge.
+   wf_wmd W show_w read_w i := wf_core W i /\ every weight w stored in i satisfies good_w w, i.e. the four codec
+     facts for that w (the pointwise form: C09_roundtrip_pointwise needs no hypothesis on other weights).
 
-   same_content W i i'  (Proofs/WmdIO.v)  :=
+   same_content W show_w read_w i i'  (Proofs/WmdIO.v)  :=
         w_meta i' = w_meta i with num_voters := num_alternatives (and the autocorrect scratch set empty):
           every header field, alternatives_name (same keys, names, order) and num_alternatives are unchanged
      /\ (forall n m, m in neighbours i' n  <->  m in neighbours i n)                 same set of directed edges
@@ -26,7 +28,7 @@
      /\ (forall e, e in edges() of i' <-> e in edges() of i)                          edges() as (n1, n2, w) triples
      /\ (forall n, n is a node of i' <-> n is incident to an edge of i)               isolated nodes are lost
      /\ num_edges i' = number of stored edges of i' = num_edges i
-     /\ wf_wmd W i'. *)
+     /\ wf_wmd W show_w read_w i'. *)
 From Coq Require Import List NArith Bool String Permutation Sorted.
 From PrefVerif Require Import Lib.Val Lib.Dec Lib.PyStr Model.Meta Model.WmdIO.
 From PrefVerif Require Import Proofs.Meta Proofs.WmdSort Proofs.WmdGraph Proofs.WmdIO.
@@ -34,6 +36,8 @@ Import ListNotations.
 Open Scope string_scope.
 Open Scope N_scope.
 
+Print wf_core.
+Print good_w.
 Print wf_wmd.
 Print wf_fields.
 Print wf_names.
@@ -53,37 +57,59 @@ Section C09.
   Hypothesis H_show_no_space : forall w, forallb (fun c => negb (is_space c)) (show_w w) = true.
 
   (* write, read the file back with parse_file: the parse succeeds and the instance has the same content *)
-  Theorem C09_roundtrip : forall i : winst W, wf_wmd W i ->
+  Theorem C09_roundtrip : forall i : winst W, wf_core W i ->
     exists i', wmd_parse W read_w false false (meta0 (lit "wmd")) (readlines (wmd_write W show_w i)) = Ok i'
-               /\ same_content W i i'.
-  Proof. exact (roundtrip W show_w read_w H_read_show H_show_nonempty H_show_no_comma H_show_no_space). Qed.
+               /\ same_content W show_w read_w i i'.
+  Proof. exact (codec_roundtrip W show_w read_w H_read_show H_show_nonempty H_show_no_comma H_show_no_space). Qed.
 
   (* writing the re-parsed instance reproduces the file byte for byte (code point for code point) *)
-  Theorem C09_idempotent : forall i i' : winst W, wf_wmd W i ->
+  Theorem C09_idempotent : forall i i' : winst W, wf_core W i ->
     wmd_parse W read_w false false (meta0 (lit "wmd")) (readlines (wmd_write W show_w i)) = Ok i' ->
     wmd_write W show_w i' = wmd_write W show_w i.
-  Proof. exact (idempotent W show_w read_w H_read_show H_show_nonempty H_show_no_comma H_show_no_space). Qed.
+  Proof. exact (codec_idempotent W show_w read_w H_read_show H_show_nonempty H_show_no_comma H_show_no_space). Qed.
 
   (* the re-parsed instance explicitly (the graph rebuilt by add_edge along the sorted edge list), through
      parse_file (readlines) and through parse_str (splitlines) *)
-  Theorem C09_roundtrip_file : forall i : winst W, wf_wmd W i ->
+  Theorem C09_roundtrip_file : forall i : winst W, wf_core W i ->
     wmd_parse W read_w false false (meta0 (lit "wmd")) (readlines (wmd_write W show_w i)) = Ok (reparsed W i).
-  Proof. exact (roundtrip_readlines W show_w read_w H_read_show H_show_nonempty H_show_no_comma H_show_no_space). Qed.
+  Proof. exact (codec_roundtrip_readlines W show_w read_w H_read_show H_show_nonempty H_show_no_comma H_show_no_space). Qed.
 
-  Theorem C09_roundtrip_str : forall i : winst W, wf_wmd W i ->
+  Theorem C09_roundtrip_str : forall i : winst W, wf_core W i ->
     wmd_parse W read_w false false (meta0 (lit "wmd")) (splitlines (wmd_write W show_w i)) = Ok (reparsed W i).
-  Proof. exact (roundtrip_splitlines W show_w read_w H_read_show H_show_nonempty H_show_no_comma H_show_no_space). Qed.
+  Proof. exact (codec_roundtrip_splitlines W show_w read_w H_read_show H_show_nonempty H_show_no_comma H_show_no_space). Qed.
 
   (* header_only = True on the written file: same header fields, names and counts, num_edges as printed in the
      header, num_voters = num_alternatives, empty graph (used by C10) *)
-  Theorem C09_header_only : forall i : winst W, wf_wmd W i ->
+  Theorem C09_header_only : forall i : winst W, wf_core W i ->
     wmd_parse W read_w false true (meta0 (lit "wmd")) (readlines (wmd_write W show_w i)) =
     Ok (mkW (reparsed_meta (w_meta i)) (w_num_edges i) [] []).
-  Proof. exact (header_only_readlines W show_w read_w H_show_nonempty H_show_no_space). Qed.
+  Proof. exact (codec_header_only W show_w read_w H_read_show H_show_nonempty H_show_no_comma H_show_no_space). Qed.
 End C09.
 
-Theorem C09_reparsed_same_content : forall W (i : winst W), wf_wmd W i -> same_content W i (reparsed W i).
-Proof. exact reparsed_same_content. Qed.
+(* the pointwise form: only the weights stored in the instance have to be printed / read back faithfully *)
+Theorem C09_roundtrip_pointwise : forall W show_w read_w (i : winst W), wf_wmd W show_w read_w i ->
+  wmd_parse W read_w false false (meta0 (lit "wmd")) (readlines (wmd_write W show_w i)) = Ok (reparsed W i)
+  /\ same_content W show_w read_w i (reparsed W i)
+  /\ wmd_write W show_w (reparsed W i) = wmd_write W show_w i.
+Proof.
+  intros W show_w read_w i H. split; [exact (roundtrip_readlines W show_w read_w i H)|].
+  split; [exact (reparsed_same_content W show_w read_w i H)|exact (write_reparsed W show_w read_w i H)].
+Qed.
+
+(* the instantiation that is extracted and run by the harness (Ops/C09.v): a weight is its raw token; tok_ok t =
+   the token is non-empty and contains neither "," nor whitespace *)
+Print tok_ok.
+Theorem C09_roundtrip_tokens : forall i : twinst,
+  wf_core text i -> Forall (fun e => tok_ok (snd e) = true) (w_weights i) ->
+  exists i', wmd_parse_tok false false (meta0 (lit "wmd")) (readlines (wmd_write_tok i)) = Ok i'
+             /\ same_content text tok_show tok_read i i'.
+Proof. intros i H F. apply tok_roundtrip. now split. Qed.
+
+Theorem C09_idempotent_tokens : forall i i' : twinst,
+  wf_core text i -> Forall (fun e => tok_ok (snd e) = true) (w_weights i) ->
+  wmd_parse_tok false false (meta0 (lit "wmd")) (readlines (wmd_write_tok i)) = Ok i' ->
+  wmd_write_tok i' = wmd_write_tok i.
+Proof. intros i i' H F. apply tok_idempotent. now split. Qed.
 
 (* the sort used by the writer sorts *)
 Theorem C09_sort_sorts : forall l, StronglySorted N.le (isort_N l) /\ Permutation l (isort_N l).
@@ -99,7 +125,9 @@ Print Assumptions C09_idempotent.
 Print Assumptions C09_roundtrip_file.
 Print Assumptions C09_roundtrip_str.
 Print Assumptions C09_header_only.
-Print Assumptions C09_reparsed_same_content.
+Print Assumptions C09_roundtrip_pointwise.
+Print Assumptions C09_roundtrip_tokens.
+Print Assumptions C09_idempotent_tokens.
 Print Assumptions C09_sort_sorts.
 Print Assumptions C09_type_gate.
 
@@ -121,9 +149,9 @@ Definition ex_meta : meta :=
 Definition ex_inst : winst N :=
   mkW ex_meta 3 [(2, [2; 1]); (1, [2]); (3, [])] [((2, 2), 0); ((1, 2), 7); ((2, 1), 1000000000000000000000)].
 
-Example C09_ex_wf : wf_wmd N ex_inst.
+Example C09_ex_wf : wf_core N ex_inst.
 Proof.
-  unfold wf_wmd, ex_inst, ex_meta. cbn [w_meta w_nodes w_weights w_num_edges data_type alt_names].
+  unfold wf_core, ex_inst, ex_meta. cbn [w_meta w_nodes w_weights w_num_edges data_type alt_names].
   split; [reflexivity|]. split.
   { unfold wf_fields, wf_field, wf_value. cbn [file_name title description data_type modification_type relates_to
       related_files publication_date modification_date]. repeat split; vm_compute; reflexivity. }
